@@ -92,6 +92,16 @@ class Obj:
         return f'{self.cls.name}({", ".join(f"{k}={v!r}" for k, v in self.fields.items())})'
 
 
+class GenList(list):
+    """What a generator function produced, computed eagerly: the yielded values in order; `pending` is the exception the
+    body raised after them (the consumer meets it only when it asks for one more value than there are)."""
+    pending: Optional['Raised'] = None
+
+
+class _Yield(Exception):
+    pass
+
+
 class Marker(tuple):
     """Marker(('builtin', name)) / ('method', receiver, name) / ('lambda', node, env) / ('ext', name) / ('module', m) / Marker(('excobj', name))"""
 
@@ -151,8 +161,10 @@ class Interp:
                       closure: Optional[Dict[str, Any]] = None, depth: int = 0) -> Any:
         if depth > self.MAX_DEPTH:
             raise Undecided('call depth')
-        if any(isinstance(x, (ast.Yield, ast.YieldFrom, ast.Await)) for x in ast.walk(fn.node)):
-            raise Undecided(f'generator {fn.qualname}')
+        if any(isinstance(x, ast.Await) for x in ast.walk(fn.node)):
+            raise Undecided(f'coroutine {fn.qualname}')
+        from .model import iter_own_nodes
+        is_gen = any(isinstance(x, (ast.Yield, ast.YieldFrom)) for x in iter_own_nodes(fn.node))
         env: Dict[str, Any] = dict(closure or {})
         a = fn.node.args
         pos = list(a.posonlyargs) + list(a.args)
@@ -187,6 +199,17 @@ class Interp:
             env[a.kwarg.arg] = dict(kwargs)
         elif kwargs:
             raise Raised('TypeError', f'unexpected keyword argument(s) {sorted(kwargs)} for {fn.qualname}')
+        if is_gen:
+            # a generator without side effects on anything but its own locals: its values, eagerly (see GenList)
+            out = GenList()
+            env['__yielded__'] = out
+            try:
+                self.exec_block(fn.node.body, env, fn, depth)
+            except _Return:
+                pass
+            except Raised as exc:
+                out.pending = exc
+            return out
         try:
             self.exec_block(fn.node.body, env, fn, depth)
         except _Return as r:
@@ -275,7 +298,9 @@ class Interp:
             self.exec_block(s.body if self.truth(self.eval(s.test, env, fn, depth)) else s.orelse, env, fn, depth)
         elif isinstance(s, ast.For):
             broke = False
-            for item in self.iterate(self.eval(s.iter, env, fn, depth)):
+            src_ = self.eval(s.iter, env, fn, depth)
+            pending_ = src_.pending if isinstance(src_, GenList) else None
+            for item in (list(src_) if isinstance(src_, GenList) else self.iterate(src_)):
                 self.assign(s.target, item, env, fn, depth)
                 try:
                     self.exec_block(s.body, env, fn, depth)
@@ -284,6 +309,8 @@ class Interp:
                     break
                 except _Continue:
                     continue
+            if not broke and pending_ is not None:
+                raise pending_
             if not broke:
                 self.exec_block(s.orelse, env, fn, depth)
         elif isinstance(s, ast.While):
@@ -427,6 +454,10 @@ class Interp:
         raise Undecided('truth value')
 
     def iterate(self, v: Any) -> List[Any]:
+        if isinstance(v, GenList):
+            if v.pending is not None:
+                raise v.pending          # the consumer drains the generator: it reaches the failing step
+            return list(v)
         if isinstance(v, Marker):
             raise Undecided('iteration over a function / module value')
         if isinstance(v, (list, tuple, set, frozenset)):
@@ -705,6 +736,13 @@ class Interp:
             return Marker(('lambda', e, dict(env)))
         if isinstance(e, ast.Starred):
             return self.eval(e.value, env, fn, depth)
+        if isinstance(e, ast.Yield) and '__yielded__' in env:
+            env['__yielded__'].append(self.eval(e.value, env, fn, depth) if e.value is not None else None)
+            return None
+        if isinstance(e, ast.YieldFrom) and '__yielded__' in env:
+            src = self.eval(e.value, env, fn, depth)
+            env['__yielded__'].extend(self.iterate(src))
+            return None
         raise Undecided(f'expression {type(e).__name__}')
 
     def global_name(self, mod: Module, name: str, fn: FuncInfo, depth: int) -> Any:
@@ -960,8 +998,16 @@ class Interp:
         if name == 'reversed' and len(args) == 1:
             return list(reversed(self.iterate(args[0])))
         if name in ('any', 'all') and len(args) == 1:
-            vals = [self.truth(x) for x in self.iterate(args[0])]
-            return any(vals) if name == 'any' else all(vals)
+            src_ = args[0]
+            for x in (list(src_) if isinstance(src_, GenList) else self.iterate(src_)):
+                t_ = self.truth(x)
+                if name == 'any' and t_:
+                    return True
+                if name == 'all' and not t_:
+                    return False
+            if isinstance(src_, GenList) and src_.pending is not None:
+                raise src_.pending
+            return name == 'all'
         if name == 'bool':
             return self.truth(args[0]) if args else False
         if name in ('str', 'repr'):
@@ -975,6 +1021,14 @@ class Interp:
         if name == 'print':
             return None
         if name == 'next' and args:
+            if isinstance(args[0], GenList):
+                if len(args[0]):
+                    return args[0][0]
+                if args[0].pending is not None:
+                    raise args[0].pending
+                if len(args) > 1:
+                    return args[1]
+                raise Raised('StopIteration')
             items = self.iterate(args[0])
             if items:
                 return items[0]
